@@ -332,6 +332,21 @@ def run_case(ctx, case):
         return Result(INCONCLUSIVE, reason="no selected output for the inverse run")
     lines = [l for l in so1[0]["string"].split("\n") if l.strip()]
     if len(lines) < 2:
+        # no model at all.  When the final water was made from the offered waters by the offered phases alone (no hidden salt, no extrapolation) and no
+        # constraint contradicts the transfers that were made, the truth itself is a model with every adjustment at zero: one must be reported
+        truth_ok = (not info["extrap"]) and (not info["pert"]) and all(info["cons"].get(p_) != "pre" for p_ in info["true"])
+        if truth_ok:
+            out_ = sn[1]["output"].get("text", "")
+            noisy_ = ("Roundoff errors" in out_) or ("Error in subroutine range" in out_) or ("Roundoff errors in minimal" in sn[1].get("warning", {}).get("text", ""))
+            cev_, _ = cl1_monitor(cl1_records(os.path.join(cwd, "cl1.bin")), len(info["sols"]))
+            kinds_ = sorted(set(k_.replace("-marginal", "") for k_, _w in cev_))
+            order_ = ["cl1-unbounded-direction", "cl1-inexact-result", "cl1-false-infeasible", "cl1-suboptimal"]
+            why_ = "solver-reported-roundoff" if noisy_ else (min(kinds_, key=order_.index) if kinds_ else "clean-run")
+            return Result(VIOLATED, key="C18/no-model-for-the-truth/" + why_,
+                          what="%s: no model reported although solution %s was made from solution(s) %s by %s alone, every one of them offered with a compatible constraint (%s), options %s" % (
+                              case["id"], info["sols"][-1], info["sols"][:-1], {p_: info["xfer"].get(p_) for p_ in info["true"]} if "xfer" in info else info["true"],
+                              {k_: v_ for k_, v_ in info["cons"].items() if v_}, info["opts"]),
+                          sample=dict(id=case["id"], true_phases=info["true"], candidates=info["cands"], options=info["opts"]))
         return Result(INCONCLUSIVE, reason="no model reported (constraints may contradict the truth)")
     hd = [x.strip() for x in lines[0].split("\t")]
     models = []
